@@ -90,6 +90,7 @@ def run(chk, replay=None):
     cases, tags, metas = b.build()
     impl, model = correspondence(chk, cases, tags, exe, drv, okb=okb,
         describe=lambda c, o: {"stream": STREAMS.get(c[3]), "param": c[4], "events": c[5:], "per_event(update,get,same)": o})
+    _nv0 = len(chk.violations)
     # the f32 and Quantity variants produce the same numbers (numerically: +-0 identified)
     nv = 0
     for i in range(0, len(cases), 2):
@@ -105,7 +106,7 @@ def run(chk, replay=None):
             same = gx[0] == gy[0] and (gx[0] != "S" or (gx[1] == gy[1] and (gx[2][0] == gy[2][0] or ((gx[2][0] | gy[2][0]) & 0x7FFFFFFF) == 0 or (is_nan_bits(gx[2][0]) and is_nan_bits(gy[2][0]))))) and (gx[0] != "E" or gx == gy)
             if not same:
                 chk.violation("%s and %s produce different numbers: %s vs %s" % (STREAMS[sf], STREAMS[sq], gx, gy), {"case": cases[i], "quantity_case": cases[i + 1], "impl": impl[i], "impl_quantity": impl[i + 1]}, True); break
-        if chk.violations: break
+        if len(chk.violations) > _nv0: break
     chk.cov["variant_outputs_compared"] = nv
     chk.assumptions.append("powf: oracle (implementation's own values); assumed of it in C12_ewma_first_sample_exact: pow(b, 0) = 1; measured on this run's table")
     chk.notes.append("float convexity 'up to rounding' is measured (tolerance 8*2^-21*max|v|), not proved; weights/no-panic are proved (integers), first-sample exactness is proved for binary32")
